@@ -947,7 +947,7 @@ def settings_fixed_at_construction(built, later):
             if not (p_ == ["train_features"] and built.get("train_features") is None)]
 
 
-def hourly_stored(run, impl):
+def hourly_stored(run, impl, only=None):
     """real hourly fits (about 0.5 s each) on data that carries a supplemental time-series column: the settings a
     fitted HourlyModel holds, records (to_dict) and gives back (from_json) are the ones it was built with, and a
     settings object handed in by the caller is left as it was (the model does not cover fit: oracle only)"""
@@ -956,6 +956,8 @@ def hourly_stored(run, impl):
     jobs = [("dict", None, doc) for doc in HOURLY_STORED_DOCS[:run.n(4, len(HOURLY_STORED_DOCS))]]
     for cls, kw in HOURLY_STORED_OBJECTS[:run.n(2, len(HOURLY_STORED_OBJECTS))]:
         jobs.append(("object", cls, kw))
+    if only is not None:          # --replay of one hourly_stored case
+        jobs = [only]
     for kind, cls, doc in jobs:
         case = {"stream": "hourly_stored", "ctor": {"c": "HourlyModel"},
                 "input": ({"kind": "none"} if doc is None else {"kind": "dict", "doc": doc}) if kind == "dict"
@@ -1171,8 +1173,12 @@ def main():
     cases = []
     if run.replay:
         rep = json.load(open(run.replay))
-        cases.append({"stream": rep["case"]["stream"], "ctor": rep["case"]["ctor"], "input": rep["case"]["input"],
-                      "meta": rep["case"].get("meta", {"claim": None})})
+        if rep["case"]["stream"] == "hourly_stored":
+            i = rep["case"]["input"]
+            hourly_stored(run, Impl(), only=("object", i["cls"], i["doc"]) if i["kind"] == "obj" else ("dict", None, i.get("doc")))
+        else:
+            cases.append({"stream": rep["case"]["stream"], "ctor": rep["case"]["ctor"], "input": rep["case"]["input"],
+                          "meta": rep["case"].get("meta", {"claim": None})})
     else:
         corpus = os.path.join(vlib.VERIF, "corpus", "C14.json")
         if os.path.exists(corpus):
